@@ -3,5 +3,6 @@ CONSTANTS
   Blueprints <- TraceBlueprints
   AsFound_LabourDemandLate = FALSE
   AsFound_LiteralSupGood = FALSE
+  AsFound_DividendsPerPayer = FALSE
 POSTCONDITION AllConsumed
 CHECK_DEADLOCK FALSE
